@@ -16,7 +16,7 @@ import (
 
 // reorgStorm: one submitter keeps the best chain flipping between a tall branch of light headers and a lower branch of
 // heavier ones (every second reorganisation goes DOWN in height), free-running, while readers ask for the tip through
-// the HTTP API and the service layer as fast as they can. A reader must always be told a tip: a stored header of one of
+// the HTTP API and the service layer as fast as they can. One reader builds block locators. A reader must always be told a tip: a stored header of one of
 // the two branches (or the fork point, in the middle of a reorganisation). Statement-level interleavings inside one
 // repository call are out of the controlled scheduler's reach; this workload reaches them by volume, under -race.
 func reorgStorm(r *ev.Run, caseID string) {
@@ -60,7 +60,7 @@ func reorgStorm(r *ev.Run, caseID string) {
 		known[hp.String()] = true
 	}
 	var stop atomic.Bool
-	var reads, nilTips, bad5xx, unknown atomic.Int64
+	var reads, nilTips, bad5xx, unknown, panics atomic.Int64
 	var firstBad atomic.Value
 	var wg sync.WaitGroup
 	for g := 0; g < 6; g++ {
@@ -70,6 +70,24 @@ func reorgStorm(r *ev.Run, caseID string) {
 			defer wg.Done()
 			for !stop.Load() {
 				reads.Add(1)
+				if g == 5 {
+					// the block locator (what the sync engines send to peers) is read the same way
+					func() {
+						defer func() {
+							if p := recover(); p != nil {
+								panics.Add(1)
+								firstBad.CompareAndSwap(nil, fmt.Sprintf("Headers.LatestHeaderLocator() panicked: %v", p))
+							}
+						}()
+						for _, h := range st.Svc.Headers.LatestHeaderLocator() {
+							if h == nil || !known[h.String()] {
+								unknown.Add(1)
+								firstBad.CompareAndSwap(nil, fmt.Sprintf("Headers.LatestHeaderLocator() holds %v", h))
+							}
+						}
+					}()
+					continue
+				}
 				if g%2 == 0 {
 					w := st.GET("/api/v1/chain/tip/longest")
 					if w.Code != 200 {
@@ -97,6 +115,7 @@ func reorgStorm(r *ev.Run, caseID string) {
 	}
 	li, hi, flips, down := 0, 0, 0, 0
 	diverged := false
+	failedCode := ""
 	for flips < nFlips && li < len(light) && hi < len(heavy) && !diverged {
 		onLight := li > 0 && refmodel.IsAncestor(m.Nodes[light[0].HashOf()], m.Best())
 		var h refmodel.Hdr
@@ -111,6 +130,13 @@ func reorgStorm(r *ev.Run, caseID string) {
 		si := mb.Step(st, m, h)
 		if si.Res.Panic != nil || si.Res.Code() != mb.WantCode(si.Outcome) {
 			diverged = true
+			if c := si.Res.Code(); si.Res.Panic != nil || c == "HeaderSaveFail" || c == "ChainUpdateFail" || c == "HeaderCreationFail" {
+				failedCode = c
+				if si.Res.Panic != nil {
+					failedCode = "panic"
+				}
+				firstBad.CompareAndSwap(nil, fmt.Sprintf("Chains.Add: %v %v", si.Res.Err, si.Res.Panic))
+			}
 		}
 		if si.Reorg {
 			flips++
@@ -126,6 +152,12 @@ func reorgStorm(r *ev.Run, caseID string) {
 	r.Count("storm_tip_reads", reads.Load())
 	detail := map[string]any{"reorganisations": flips, "to_a_lower_height": down, "tip_reads": reads.Load(), "first_bad_answer": firstBad.Load()}
 	switch {
+	case failedCode != "":
+		r.Violate("storm|submission-failed-while-readers-were-active|"+failedCode, fmt.Sprintf("a submission that the store accepts when it is alone failed while tip readers were active: %v", firstBad.Load()), caseID, detail)
+		return
+	case panics.Load() > 0:
+		r.Violate("storm|reader-panicked", fmt.Sprintf("%d locator reads panicked while the best chain flipped between two branches: %v", panics.Load(), firstBad.Load()), caseID, detail)
+		return
 	case diverged:
 		r.Count("storms_cut_short_by_ingest_divergence", 1)
 		return
